@@ -679,7 +679,34 @@ func (ex *Exec) builtin(fr *Frame, st *State, name string, args []Val, x ssa.Cal
 		return one(ex.copyOp(st, args, x))
 	case "panic":
 		return []callRes{{st: st, panic: true, msg: "explicit panic: " + valString(args[0]), pos: ex.pos(x)}}
-	case "print", "println", "recover", "delete", "clear":
+	case "delete", "clear":
+		// on a tracked map (MapModel): remove the constant key / all keys; a key that is not constant makes the map unknown
+		if mv, ok := args[0].(*MapV); ok && mv.Dyn {
+			if hm, ok := st.heap[mv.Obj].(*MapV); ok && hm.Dyn && !hm.Unk {
+				nm := &MapV{ElemT: hm.ElemT, Dyn: true}
+				if name == "delete" && len(args) == 2 {
+					ki, _ := args[1].(*IntV)
+					kc, isK := int64(0), false
+					if ki != nil {
+						kc, isK = st.ConstOf(ki)
+					}
+					if !isK {
+						nm.Unk = true
+					}
+					for i, kk := range hm.Keys {
+						if !isK || kk != kc {
+							nm.Keys = append(nm.Keys, kk)
+							nm.Vals = append(nm.Vals, hm.Vals[i])
+						}
+					}
+				}
+				st.heap[mv.Obj] = nm
+			}
+		} else if sl, ok := args[0].(*SliceV); ok && name == "clear" && !sl.Nil {
+			ex.havocAll(st, "clear on a slice")
+		}
+		return one(ex.retTop(st, resT, name))
+	case "print", "println", "recover":
 		return one(ex.retTop(st, resT, name))
 	case "min", "max":
 		return one(ex.retTop(st, resT, name))
